@@ -63,7 +63,7 @@ BOUNDSET['difference'] = dict(ret='r', contract='''    requires bs_wf(*self), bs
         lemma_cut_inf(cut_of(*self.lower)); lemma_cut_inf(cut_of(*self.upper)); lemma_cut_inf(cut_of(*other.lower)); lemma_cut_inf(cut_of(*other.upper));
         assert forall|a: Bound, b: Bound| #![trigger bound_eq(a, b)] bound_eq(a, b) <==> (cut_cmp(cut_of(a), cut_of(b)) == Ordering::Equal && is_lower(a) == is_lower(b)) by { lemma_bound_eq_cut(a, b); }
     }''', closures=[('.map(|f| vec![f])', '.map(|f: BoundSet| -> (rr: Vec<BoundSet>) ensures rr@.len() == 1 && rr@[0] == f { vec![f] })')])
-BOUNDSET['min_version'] = dict(ret='r', contract='''    requires bs_wf(*self), bound_version(*self.lower) matches Some(w) ==> w.patch < 0xffff_ffff_ffff_ffff,
+BOUNDSET['min_version'] = dict(ret='r', contract='''    requires bs_wf(*self), bs_small(*self),
     ensures minv_post(*self, r),''',
     entry='broadcast use group_k_order;',
     after=[('            Bound::Upper(_) => return None,\n        };', '''proof {
@@ -82,7 +82,7 @@ BOUNDSET['min_version'] = dict(ret='r', contract='''    requires bs_wf(*self), b
 
 # ---------------------------------------------------------------------------------------------- Range
 RANGE = {}
-RANGE['any'] = dict(ret='r', contract='    ensures rwf(r), r.0@.len() == 1, forall|k: VKey| rwithin(r, k),', entry='proof { reveal(cut_cmp); }')
+RANGE['any'] = dict(ret='r', contract='    ensures rwf(r), rsmall(r), r.0@.len() == 1, forall|k: VKey| rwithin(r, k),', entry='proof { reveal(cut_cmp); }')
 RANGE['satisfies'] = dict(ret='r', contract='''    requires rwf(*self),
     ensures r == rsat(*self, key(*version)),''', entry='broadcast use g_any;',
     loops=[(0, 'it0', 'rwf(*self), !any_sat(self.0@, it0.index@ as int, key(*version)),')])
@@ -94,11 +94,11 @@ RANGE['allows_all'] = dict(ret='r', contract='''    requires rwf(*self), rwf(*ot
     ensures r == rallows_all(*self, *other),''',
     loops=[(0, 'it0', 'rwf(*self), rwf(*other), forall|i: int, j: int| 0 <= i < it0.index@ && 0 <= j < other.0@.len() ==> !ballows_all(#[trigger] self.0@[i], #[trigger] other.0@[j]),'),
            (1, 'it1', 'rwf(*self), rwf(*other), bs_wf(*this), 0 <= it0.index@ < self.0@.len(), *this == self.0@[it0.index@ as int], forall|i: int, j: int| 0 <= i < it0.index@ && 0 <= j < other.0@.len() ==> !ballows_all(#[trigger] self.0@[i], #[trigger] other.0@[j]), forall|j: int| 0 <= j < it1.index@ ==> !ballows_all(*this, #[trigger] other.0@[j]),')])
-INV_OUT = '''rwf(*self), rwf(*other), swf(sets@),
+INV_OUT = '''rwf(*self), rwf(*other), swf(sets@), (rsmall(*self) && rsmall(*other)) ==> ssmall(sets@),
         (sets@.len() > 0) == (exists|i: int, j: int| 0 <= i < it0.index@ && 0 <= j < other.0@.len() && boverlap(#[trigger] self.0@[i], #[trigger] other.0@[j])),
         forall|v: VKey| #![trigger any_within(sets@, sets@.len() as int, v)] #![trigger rwithin(*other, v)] any_within(sets@, sets@.len() as int, v) <==> (any_within(self.0@, it0.index@ as int, v) && rwithin(*other, v)),
         forall|v: VKey| #![trigger any_sat(sets@, sets@.len() as int, v)] any_sat(sets@, sets@.len() as int, v) <==> any_pair_sat(self.0@, it0.index@ as int, other.0@, 0, v),'''
-INV_IN = '''rwf(*self), rwf(*other), swf(sets@), bs_wf(*lefty), 0 <= it0.index@ < self.0@.len(), *lefty == self.0@[it0.index@ as int],
+INV_IN = '''rwf(*self), rwf(*other), swf(sets@), (rsmall(*self) && rsmall(*other)) ==> ssmall(sets@), bs_wf(*lefty), 0 <= it0.index@ < self.0@.len(), *lefty == self.0@[it0.index@ as int],
         (sets@.len() > 0) == ((exists|i: int, j: int| 0 <= i < it0.index@ && 0 <= j < other.0@.len() && boverlap(#[trigger] self.0@[i], #[trigger] other.0@[j]))
             || (exists|j: int| 0 <= j < it1.index@ && boverlap(*lefty, #[trigger] other.0@[j]))),
         forall|v: VKey| #![trigger any_within(sets@, sets@.len() as int, v)] #![trigger rwithin(*other, v)] any_within(sets@, sets@.len() as int, v) <==>
@@ -134,17 +134,17 @@ RANGE['intersect'] = dict(ret='r', contract='''    requires rwf(*self), rwf(*oth
             lemma_any_pair_sat_row(self.0@, n0, other.0@, v);
         }
     }''')])
-DINV0 = '''rwf(*self), rwf(*other), swf(predicates@),
+DINV0 = '''rwf(*self), rwf(*other), swf(predicates@), (rsmall(*self) && rsmall(*other)) ==> ssmall(predicates@),
         it0.index@ == 0 ==> predicates@.len() == 0,
         (self.0@.len() == 1 && other.0@.len() == 1 && it0.index@ == 1) ==> ((predicates@.len() == 0) <==> bdiff_none(self.0@[0], other.0@[0])),
         forall|v: VKey| #![trigger any_within(predicates@, predicates@.len() as int, v)] #![trigger rwithin(*other, v)] any_within(predicates@, predicates@.len() as int, v) <==> (any_within(self.0@, it0.index@ as int, v) && !rwithin(*other, v)),'''
-DINV1 = '''rwf(*self), rwf(*other), swf(predicates@), swf(remainders@), bs_wf(*lefty), 0 <= it0.index@ < self.0@.len(), *lefty == self.0@[it0.index@ as int],
+DINV1 = '''rwf(*self), rwf(*other), swf(predicates@), swf(remainders@), (rsmall(*self) && rsmall(*other)) ==> (ssmall(predicates@) && ssmall(remainders@)), bs_wf(*lefty), 0 <= it0.index@ < self.0@.len(), *lefty == self.0@[it0.index@ as int],
         it0.index@ == 0 ==> predicates@.len() == 0,
         it1.index@ == 0 ==> remainders@.len() == 1 && remainders@[0] == *lefty,
         (other.0@.len() == 1 && it1.index@ == 1) ==> ((remainders@.len() == 0) <==> bdiff_none(*lefty, other.0@[0])),
         forall|v: VKey| #![trigger any_within(predicates@, predicates@.len() as int, v)] #![trigger rwithin(*other, v)] any_within(predicates@, predicates@.len() as int, v) <==> (any_within(self.0@, it0.index@ as int, v) && !rwithin(*other, v)),
         forall|v: VKey| #![trigger any_within(remainders@, remainders@.len() as int, v)] any_within(remainders@, remainders@.len() as int, v) <==> (within(*lefty, v) && !any_within(other.0@, it1.index@ as int, v)),'''
-DINV2 = '''rwf(*other), swf(remainders@), swf(next@), bs_wf(*righty),
+DINV2 = '''rwf(*other), swf(remainders@), swf(next@), bs_wf(*righty), (ssmall(remainders@) && bs_small(*righty)) ==> ssmall(next@),
         it2.index@ == 0 ==> next@.len() == 0,
         (remainders@.len() == 1 && it2.index@ == 1) ==> ((next@.len() == 0) <==> bdiff_none(remainders@[0], *righty)),
         forall|v: VKey| #![trigger any_within(next@, next@.len() as int, v)] any_within(next@, next@.len() as int, v) <==> (any_within(remainders@, it2.index@ as int, v) && !within(*righty, v)),'''
@@ -166,6 +166,7 @@ RANGE['difference'] = dict(ret='r', contract='''    requires rwf(*self), rwf(*ot
     loop_end=[(0, '''proof {
             assert(predicates@ =~= old_preds + rem_final);
             lemma_swf_concat(old_preds, rem_final);
+            if rsmall(*self) && rsmall(*other) { lemma_ssmall_concat(old_preds, rem_final); }
             assert forall|v: VKey| #![trigger any_within(predicates@, predicates@.len() as int, v)] #![trigger rwithin(*other, v)] any_within(predicates@, predicates@.len() as int, v) <==> (any_within(self.0@, it0.index@ as int + 1, v) && !rwithin(*other, v)) by {
                 lemma_any_within_step(self.0@, it0.index@ as int, v);
                 lemma_any_within_concat(old_preds, rem_final, v);
@@ -173,7 +174,7 @@ RANGE['difference'] = dict(ret='r', contract='''    requires rwf(*self), rwf(*ot
         }'''), (2, '''proof {
             let added: Seq<BoundSet> = match rgv { Some(x) => x@, None => Seq::empty() };
             assert(next@ =~= old_next + added);
-            if rgv is Some { lemma_swf_concat(old_next, added); }
+            if rgv is Some { lemma_swf_concat(old_next, added); if ssmall(remainders@) && bs_small(*righty) { lemma_ssmall_concat(old_next, added); } }
             assert forall|v: VKey| #![trigger any_within(next@, next@.len() as int, v)] any_within(next@, next@.len() as int, v) <==> (any_within(remainders@, it2.index@ as int + 1, v) && !within(*righty, v)) by {
                 lemma_any_within_step(remainders@, it2.index@ as int, v);
                 lemma_any_within_concat(old_next, added, v);
@@ -188,9 +189,9 @@ MINV = '''match min {
             Some(m) => any_sat(self.0@, it0.index@ as int, key(m)) && forall|k: VKey| #![trigger any_sat(self.0@, it0.index@ as int, k)] wfk0(k) && any_sat(self.0@, it0.index@ as int, k) ==> kcmp(key(m), k) != Ordering::Greater,
             None => forall|k: VKey| #![trigger any_sat(self.0@, it0.index@ as int, k)] wfk0(k) ==> !any_sat(self.0@, it0.index@ as int, k),
         }'''
-RANGE['min_version'] = dict(ret='r', contract='''    requires rwf(*self), rpatch_ok(*self),
+RANGE['min_version'] = dict(ret='r', contract='''    requires rwf(*self), rsmall(*self),
     ensures rminv_post(*self, r),''', entry='broadcast use g_any, group_k_order;',
-    loops=[(0, 'it0', 'rwf(*self), rpatch_ok(*self), ' + MINV + ',')],
+    loops=[(0, 'it0', 'rwf(*self), rsmall(*self), ' + MINV + ',')],
     loop_entry=[(0, 'let ghost old_min = min; let ghost mut cand: Option<Version> = None;')],
     after=[('if let Some(candidate) = range.min_version() {', 'proof { cand = Some(candidate); }')],
     loop_end=[(0, '''proof {
@@ -257,12 +258,16 @@ def clause(cond, post, cid):
     return f'        {cond} ==> {post},  // @{cid}'
 
 
+def small_clause(name):
+    return '        r matches Some(bs) ==> bs_small(bs),  // @' + name + '#small'
+
+
 def grid_partial():
-    return ['    requires wf_partial(partial),', '    ensures'] + [clause(c.format(p='partial'), 'shape_ok_c(r, npm_plain_c(partial))', 'plain#' + s) for s, c in SHAPES]
+    return ['    requires wf_partial(partial),', '    ensures', small_clause('plain')] + [clause(c.format(p='partial'), 'shape_ok_c(r, npm_plain_c(partial))', 'plain#' + s) for s, c in SHAPES]
 
 
 def grid_caret():
-    out = ['    requires wf_partial(parsed),', '    ensures']
+    out = ['    requires wf_partial(parsed),', '    ensures', small_clause('caret')]
     P = 'parsed'
     for s, c in SHAPES:
         c = c.format(p=P)
@@ -279,7 +284,7 @@ def grid_caret():
 
 
 def grid_tilde():
-    out = ['    requires wf_partial(parsed.1),', '    ensures']
+    out = ['    requires wf_partial(parsed.1),', '    ensures', small_clause('tilde')]
     for g, gc in (('~', 'parsed.0 is None'), ('~>', 'parsed.0 is Some')):
         for s, c in SHAPES:
             out.append(clause(gc + ' && ' + c.format(p='parsed.1'), 'shape_ok_c(r, npm_tilde_c(parsed.1))', 'tilde#' + g + s))
@@ -290,7 +295,7 @@ OPS = ['Exact', 'GreaterThan', 'GreaterThanEquals', 'LessThan', 'LessThanEquals'
 
 
 def grid_primitive(op):
-    out = ['    requires wf_partial(parsed.1), parsed.0 == Operation::' + op + ',', '    ensures']
+    out = ['    requires wf_partial(parsed.1), parsed.0 == Operation::' + op + ',', '    ensures', small_clause('primitive#' + op)]
     for s, c in SHAPES:
         # `<=1` / `<=1.2` are written as `<=1.MAX.MAX` / `<=1.2.MAX` (pinned by the suite): same admitted versions, stated as such
         post = 'shape_equiv_c' if (op == 'LessThanEquals' and s in ('M', 'M.m')) else 'shape_ok_c'
@@ -299,7 +304,7 @@ def grid_primitive(op):
 
 
 def grid_hyphen():
-    out = ['    requires wf_partial(upper), lower matches Some(f) ==> wf_partial(f),', '    ensures']
+    out = ['    requires wf_partial(upper), lower matches Some(f) ==> wf_partial(f),', '    ensures', small_clause('hyphen')]
     lowers = [('none', 'lower is None')] + [(s, 'lower is Some && ' + c.format(p='lower->0')) for s, c in SHAPES]
     for ls, lc in lowers:
         for s, c in SHAPES:
